@@ -63,7 +63,16 @@ def op_sig(op: list) -> str:
 
 
 ORACLE = TreeOracle()
-run_case = docexp.make_run_case(ORACLE)
+_edit_case = docexp.make_run_case(ORACLE)
+
+
+def run_case(case: dict) -> core.CaseResult:
+    ops_ = case.get('ops') or []
+    if ops_ and all(op[0] in ('claim', 'claimseq', 'claimseq1') for op in ops_) and any(op[0] == 'claimseq1' or op[2] == 'auto_claim_comments' for op in ops_):
+        from .. import claims
+        r, _ = claims.run_claim_trace(case, {'tree'})
+        return r
+    return _edit_case(case)
 
 
 def main(run: core.Run) -> None:
@@ -85,3 +94,13 @@ def main(run: core.Run) -> None:
         run.bounds.update({'depth1': 'all docs <= 3 lines, both attribution modes', 'depth2': 'docs <= 2 lines'})
     docexp.bfs(run, ORACLE, items, 'depth-1 corpus')
     docexp.bfs(run, ORACLE, d2, 'depth-2 corpus')
+    # comment-attribution calls to a fixpoint per document (this is where a placeholder left behind its items shows)
+    from .. import claims
+    n = 3 if tier == 'quick' else 4
+    bfs_cases = []
+    for t in docs.texts(docs.L_COMMENT, n, nmin=1, variants=(('lf', True),)):
+        for mode in (True, False):
+            root = docs.try_parse(t, M.File, mode)
+            if root is not None and any(isinstance(x, M.BlockComment) for x in root.token_store):
+                bfs_cases.append({'text': t, 'mode': mode})
+    claims.claims_bfs(run, bfs_cases, {'tree'}, 'claim-call BFS (check_tree)')
